@@ -148,3 +148,9 @@ func BaseWorld(opt Options) *World {
 	baseMu.Unlock()
 	return &World{R: s.MustRestore(), N: n, TS: ts}
 }
+
+// Fork returns an independent world on a copy of this world's persistent data
+// (equivalent to stopping the node, copying its data directory and starting the copy).
+func (w *World) Fork() *World {
+	return &World{R: w.R.Snapshot().MustRestore(), N: w.N.Clone(), TS: w.TS, Blocks: w.Blocks}
+}
